@@ -63,7 +63,7 @@ def tweak_spec(draw):
 
 @st.composite
 def session_case(draw):
-    n = draw(st.one_of(st.integers(2, 3), st.integers(2, 4), st.integers(1, 6), st.sampled_from([1, 2, 8, 15, 16]), st.integers(1, 16)))
+    n = draw(st.one_of(st.integers(2, 3), st.integers(2, 4), st.integers(2, 6), st.sampled_from([1, 2, 3, 8, 15, 16]), st.integers(1, 16)))
     keys = [draw(gens.seckey_valid) for _ in range(n)]
     shape = draw(st.sampled_from(["distinct", "distinct", "dups", "dups", "first_rep", "first_rep", "all_equal", "neg_pair"]))
     if shape == "distinct" or n == 1:
@@ -368,8 +368,12 @@ def run_session(env, case):
     t_ad = None
     if ad is not None:
         if ad == "neg_r1":
-            t_ad = (-sum(k[0] for k in ks)) % N or 1     # T = -R1agg: the first component cancels AFTER the adaptor is added
-            classes.append("adaptor:cancels_R1" if t_ad != 1 or sum(k[0] for k in ks) % N == N - 1 else "adaptor")
+            s0 = sum(k[0] for k in ks) % N
+            if s0:
+                t_ad = N - s0        # T = -R1agg: the first component becomes infinity only AFTER the adaptor is added
+                classes.append("adaptor:cancels_R1")
+            else:
+                t_ad = 1
         else:
             t_ad = ad
         classes.append("adaptor")
